@@ -408,6 +408,63 @@ def c13_illegal_xsd_escapes():
     report("c13_illegal_xsd_escapes", any("REJECTED" in v for v in out.values()), str(out))
 
 
+def _grep_out(tmp, needle):
+    import subprocess
+    return subprocess.run(f"grep -rn -A1 '{needle}' {tmp}/out | head -6", shell=True, capture_output=True, text=True).stdout
+
+
+@case
+def c20_python_docstring_trailing_quote():
+    import ast as _ast
+    from aas_core_codegen.common import Stripped
+    import aas_core_codegen.python.description as P
+    d = P.docstring(Stripped('Say "hello"'))
+    try:
+        _ast.parse("x = " + d)
+        report("c20_python_docstring_trailing_quote", False, d)
+    except SyntaxError as ex:
+        report("c20_python_docstring_trailing_quote", True, f"{d!r}: {ex}")
+
+
+@case
+def c20_block_comment_end():
+    from aas_core_codegen.common import Stripped
+    import aas_core_codegen.java.description as J
+    import aas_core_codegen.typescript.description as T
+    out = {t.__name__.split(".")[1]: t.documentation_comment(Stripped("ends */ early")) for t in (J, T)}
+    report("c20_block_comment_end", any(v.count("*/") > 1 for v in out.values()), str(out))
+
+
+@case
+def c20_cpp_comment_line_splice():
+    model = """
+    class Something(DBC):
+        \"\"\"Represent a path ending in a backslash\\\\\\\\\"\"\"
+        x: int
+        def __init__(self, x: int) -> None:
+            self.x = x
+    """
+    rc, out, err, exc, tmp = run_main(model, "cpp")
+    hit = _grep_out(tmp, "ending in a backslash")
+    shutil.rmtree(tmp)
+    report("c20_cpp_comment_line_splice", "backslash\\\n" in hit, hit.strip()[:300])
+
+
+@case
+def c20_java_unicode_escape_in_comment():
+    model = """
+    class Something(DBC):
+        \"\"\"Represent a Windows path such as ``C:\\\\users``.\"\"\"
+        x: int
+        def __init__(self, x: int) -> None:
+            self.x = x
+    """
+    rc, out, err, exc, tmp = run_main(model, "java")
+    hit = _grep_out(tmp, "Windows path")
+    shutil.rmtree(tmp)
+    report("c20_java_unicode_escape_in_comment", "C:\\users" in hit, hit.strip()[:200] + " (javac: illegal unicode escape)")
+
+
 def main():
     ap = argparse.ArgumentParser()
     ap.add_argument("--repo", default="/repo")
